@@ -1,2 +1,42 @@
-From Coq Require Import List.
-Theorem C11_placeholder : True. Proof. exact I. Qed.
+(* C11 - backend selection follows the documented precedence and is stable.
+   Model/Registry.v: (1) [select], the specification - a function of the backend argument, the
+   with-stack, the argument types and the *set* of available backends only; (2) the state machine
+   of BackendRegistryState (memo, lazily run factories, has_checked latch), which the
+   correspondence check compares with the real registry on random histories. *)
+From Coq Require Import List ZArith Bool Arith Permutation.
+From EinxV Require Import Model.Registry Proofs.RegistryProofs.
+Import ListNotations.
+
+(* registration order is irrelevant *)
+Theorem C11_selection_is_independent_of_registration_order : forall avail avail' stack a tys,
+  Permutation avail avail' -> NoDup (map bname avail) ->
+  select avail stack a tys = select avail' stack a tys.
+Proof. exact select_order_independent. Qed.
+Print Assumptions C11_selection_is_independent_of_registration_order.
+
+(* the precedence chain, read off the specification: object > name > innermost with > tensors *)
+Theorem C11_backend_object_wins : forall avail stack b tys, select avail stack (BObj b) tys = OBackend b.
+Proof. reflexivity. Qed.
+Theorem C11_with_block_beats_tensors : forall avail b rest tys, select avail (b :: rest) BNone tys = OBackend b.
+Proof. reflexivity. Qed.
+Theorem C11_unknown_name_is_value_error : forall avail stack n tys,
+  (forall b, In b avail -> bname b <> n) -> select avail stack (BName n) tys = OValueError.
+Proof.
+  intros avail stack n tys H. cbn [select].
+  replace (find (fun b => Nat.eqb (bname b) n) avail) with (@None backend); [reflexivity|].
+  symmetry. apply find_none_iff. intros b Hb. apply Nat.eqb_neq. now apply H.
+Qed.
+
+(* a failed factory (InvalidBackend) accepts nothing, so it never takes part in type-based selection *)
+Theorem C11_invalid_backend_never_a_candidate : forall b t, bvalid b = false -> accepts b t = false.
+Proof. intros b t H. unfold accepts. now rewrite H. Qed.
+
+(* example: numpy arrays defer to the other framework present; scalars alone select numpy *)
+Example C11_example :
+  let np := {| bid := 0; bname := numpy_name; bprio := (-1)%Z; bfw := 1; bvalid := true |} in
+  let npl := {| bid := 1; bname := 7; bprio := (-5)%Z; bfw := 1; bvalid := true |} in
+  let tor := {| bid := 2; bname := 9; bprio := 0%Z; bfw := 2; bvalid := true |} in
+  select [np; npl; tor] [] BNone [{| tfw := Some 1 |}; {| tfw := Some 2 |}] = OBackend tor
+  /\ select [np; npl; tor] [] BNone [{| tfw := None |}] = OBackend np
+  /\ select [np; npl] [] BNone [{| tfw := Some 2 |}] = OResolutionError.
+Proof. vm_compute. repeat split; reflexivity. Qed.
